@@ -69,12 +69,27 @@ func valKey(i int) ed25519.PrivKey {
 
 // NewBlankApp builds an app without genesis.
 func NewBlankApp() (*app.OsmosisApp, string) {
+	return NewBlankAppOpts(false)
+}
+
+type appOpts struct{ skipGenesisInvariants bool }
+
+func (o appOpts) Get(k string) interface{} {
+	if k == "x-crisis-skip-assert-invariants" {
+		return o.skipGenesisInvariants
+	}
+	return nil
+}
+
+// NewBlankAppOpts builds an app without genesis; skipGenesisInvariants is the operator flag
+// --x-crisis-skip-assert-invariants.
+func NewBlankAppOpts(skipGenesisInvariants bool) (*app.OsmosisApp, string) {
 	dir, err := os.MkdirTemp("", "verif-home")
 	if err != nil {
 		panic(err)
 	}
 	a := app.NewOsmosisApp(log.NewNopLogger(), cosmosdb.NewMemDB(), nil, true, map[int64]bool{}, dir, 0,
-		sims.EmptyAppOptions{}, app.EmptyWasmOpts, baseapp.SetChainID(ChainID))
+		appOpts{skipGenesisInvariants}, app.EmptyWasmOpts, baseapp.SetChainID(ChainID))
 	return a, dir
 }
 
@@ -382,7 +397,12 @@ func BeginBlock(a *app.OsmosisApp, ctx sdk.Context, dt time.Duration) (sdk.Conte
 // initial height = exported height + 1. The returned context is positioned at the exported height
 // (the next BeginBlock moves to height+1), like the exporting node's.
 func ImportNode(gs map[string]json.RawMessage, height int64, t time.Time) (*Env, error) {
-	a, dir := NewBlankApp()
+	return ImportNodeOpts(gs, height, t, false)
+}
+
+// ImportNodeOpts is ImportNode with the operator's skip-genesis-invariants flag.
+func ImportNodeOpts(gs map[string]json.RawMessage, height int64, t time.Time, skipGenesisInvariants bool) (*Env, error) {
+	a, dir := NewBlankAppOpts(skipGenesisInvariants)
 	bz, err := json.Marshal(gs)
 	if err != nil {
 		return nil, err
@@ -406,4 +426,9 @@ func ImportNode(gs map[string]json.RawMessage, height int64, t time.Time) (*Env,
 	ctx := a.BaseApp.NewContextLegacy(false, cmtproto.Header{Height: height, ChainID: ChainID, Time: t})
 	ctx = ctx.WithGasMeter(storetypes.NewInfiniteGasMeter()).WithBlockGasMeter(storetypes.NewInfiniteGasMeter())
 	return &Env{App: a, Ctx: ctx, home: dir}, nil
+}
+
+// ValAddr is the operator address of the i-th deterministic genesis validator.
+func ValAddr(i int) sdk.ValAddress {
+	return sdk.ValAddress(valKey(i).PubKey().Address())
 }
